@@ -6,7 +6,8 @@ import Reduino.Lemmas.C11
   user's text: (1) non-interference — whenever it succeeds, its result does not depend on what ANY node outside its
   whitelist (attribute access, foreign calls, lambdas, subscripts, comprehensions, …) would do, i.e. no such node was
   evaluated; (2) it is a function of the expression and the constant environment only; (3) without `**` and `<<` the
-  result size is bounded by a simple structural bound (no blow-up).  "No file/process/network access", "terminates promptly"
+  result size is bounded by a simple structural bound (no blow-up); (4) [W7] the operator table is complete (`& | ^ /` included):
+  a float outcome — the model's "accepted, value outside the domain" — is as independent of non-whitelisted nodes as a value is.  "No file/process/network access", "terminates promptly"
   and "only ValueError/SyntaxError" are run-time facts the model cannot exhibit: they rest on the audit tie (partial).
 -/
 namespace Reduino.Props.C11
@@ -60,7 +61,7 @@ def powFree : PExpr → Bool
   | .name _ => true
   | .bin op a b => op ≠ .pow && op ≠ .shl && powFree a && powFree b
   | .un _ a => powFree a
-  | _ => false      -- (stated for the arithmetic core: constants, names, + - * // % >>, unary ops)
+  | _ => false      -- (stated for the arithmetic core: constants, names, + - * // % >> & | ^, unary ops; `/` never yields a value)
 
 def envBound (env : Env) : Nat :=
   env.foldl (fun m p => match p.2 with | some (.int n) => max m n.natAbs | _ => m) 1
@@ -77,7 +78,7 @@ def bound (m : Nat) : PExpr → Nat
   | .bin .floordiv a b => bound m a + 1
   | .bin .mod a b => bound m b
   | .bin .shr a b => bound m a + 1
-  | .bin _ a b => bound m a + bound m b
+  | .bin _ a b => bound m a + bound m b      -- `& | ^` (W7): `|x op y| ≤ |x| + |y|`, see `bitwise_result_bound`
   | .un _ a => bound m a + 1
   | _ => 1
 
@@ -143,6 +144,10 @@ theorem eval_size_bound_num (env : Env) (m : Nat) (hm : 1 ≤ m)
     · exact absurd rfl h1
     · exact absurd rfl h2
     · simp only [bound] at hb ⊢; omega
+    · simp only [bound] at hb ⊢; omega
+    · simp only [bound] at hb ⊢; omega
+    · simp only [bound] at hb ⊢; omega
+    · exact absurd hb (by simp)
   | .un op a, v, k, hp, h, hk => by
     simp only [powFree] at hp
     simp only [eval] at h; rw [evalH] at h
@@ -180,6 +185,97 @@ theorem eval_size_bound_of_one_le (env : Env) (e : PExpr) (n : Int) (m : Nat) (h
     (h : eval env e = .ok (.int n)) :
     n.natAbs ≤ max (bound m e) 1 :=
   Nat.le_trans (eval_size_bound_num env m hm henv e _ n hp h rfl) (Nat.le_max_left _ _)
+
+/-! ### W7: the bitwise operators and true division -/
+
+/-- value-level bound used by `bound` for `& | ^`: the magnitude of the result is at most the sum of the operands' magnitudes -/
+theorem bitwise_result_bound (op : BinOp) (hop : op = .band ∨ op = .bor ∨ op = .bxor) (a b r : Val) (k : Int)
+    (hr : applyBin op a b = .ok r) (hk : r.num? = some k) :
+    ∃ x y, a.num? = some x ∧ b.num? = some y ∧ k.natAbs ≤ x.natAbs + y.natAbs := by
+  obtain ⟨x, y, hx, hy, hb⟩ := Reduino.Lemmas.C11.applyBin_bound hr hk (by rcases hop with h | h | h <;> simp [h])
+    (by rcases hop with h | h | h <;> simp [h])
+  refine ⟨x, y, hx, hy, ?_⟩
+  rcases hop with h | h | h <;> subst h <;> exact hb
+
+/-- the tempting sharper bound `|x & y| ≤ max |x| |y|` is false in two's complement: `-5 & -3 = -7` -/
+theorem bitwise_max_bound_counterexample :
+    eval [] (.bin .band (.const (.int (-5))) (.const (.int (-3)))) = .ok (.int (-7)) ∧ ¬ ((-7 : Int).natAbs ≤ max (-5 : Int).natAbs (-3 : Int).natAbs) := by
+  refine ⟨?_, by decide⟩
+  simp only [eval, evalH]; rfl
+
+/-- `bool op bool` stays a bool, every other mix of numbers is an int (`True & False`, `True & 3`, `True ^ True`, `6 | True`) -/
+theorem bitwise_bool_int :
+    eval [] (.bin .band (.const (.bool true)) (.const (.bool false))) = .ok (.bool false) ∧
+    eval [] (.bin .band (.const (.bool true)) (.const (.int 3))) = .ok (.int 1) ∧
+    eval [] (.bin .bxor (.const (.bool true)) (.const (.bool true))) = .ok (.bool false) ∧
+    eval [] (.bin .bor (.const (.int 6)) (.const (.bool true))) = .ok (.int 7) := by
+  refine ⟨?_, ?_, ?_, ?_⟩ <;> (simp only [eval, evalH]; rfl)
+
+/-- a non-number operand of `& | ^ /` is the evaluator's own ValueError ("unsupported operand type") -/
+theorem bitwise_non_number_raises (op : BinOp) (hop : op = .band ∨ op = .bor ∨ op = .bxor ∨ op = .div) (a b : Val)
+    (h : a.num? = none ∨ b.num? = none) : applyBin op a b = .error .value := by
+  unfold applyBin
+  split
+  · rcases hop with h' | h' | h' | h' <;> cases h'
+  · rcases h with h | h
+    · simp only [h]
+    · cases hx : a.num? <;> simp only [h]
+
+theorem applyBin_div_never_value (va vb v : Val) : applyBin .div va vb ≠ .ok v := by
+  intro h
+  unfold applyBin at h
+  split at h
+  · rename_i hq; cases hq
+  · split at h
+    · simp only at h
+      split at h
+      · cases h
+      · split at h <;> cases h
+    · cases h
+
+/-- true division never yields a value of the model: ZeroDivisionError / OverflowError (`pyError`), an operand's outcome, or
+    `floatResult` -/
+theorem div_never_value (env : Env) (a b : PExpr) (v : Val) : eval env (.bin .div a b) ≠ .ok v := by
+  intro h
+  simp only [eval] at h; rw [evalH] at h
+  obtain ⟨va, _, h⟩ := Reduino.Lemmas.C11.bind_eq_ok h
+  obtain ⟨vb, _, h⟩ := Reduino.Lemmas.C11.bind_eq_ok h
+  exact applyBin_div_never_value va vb v h
+
+/-- … and it says exactly when Python accepts: a zero divisor and a quotient that rounds to `2^1024` are rejected -/
+theorem div_outcome (x y : Int) :
+    applyBin .div (.int x) (.int y) =
+      .error (if y = 0 ∨ floatLimit * y.natAbs ≤ x.natAbs then .pyError else .floatResult) := by
+  unfold applyBin
+  simp only [Val.num?]
+  by_cases hy : y = 0
+  · simp [hy]
+  · by_cases hl : floatLimit * y.natAbs ≤ x.natAbs <;> simp [hy, hl]
+
+/-- (1') non-interference for every outcome but the evaluator's own ValueError: a float outcome (the expression is accepted,
+    its value is outside the model) or an error of a Python operation never consulted a non-whitelisted node either -/
+theorem eval_noninterference_outcome (env : Env) (e : PExpr) (er : Err) (hne : er ≠ .value) (herr : eval env e = .error er) :
+    ∀ h : String → Except Err Val, evalH h env e = .error er := by
+  intro h
+  rcases Reduino.Lemmas.C11.ag_eval h env e with h1 | h1
+  · rw [eval] at herr; rw [herr] at h1; cases h1; exact absurd rfl hne
+  · rw [h1]; exact herr
+
+theorem eval_noninterference_float (env : Env) (e : PExpr) (herr : eval env e = .error .floatResult) :
+    ∀ h : String → Except Err Val, evalH h env e = .error .floatResult :=
+  eval_noninterference_outcome env e .floatResult (by decide) herr
+
+/-- unary `~` and `@` are not in `_UN` / `_BIN`: they are nodes of a kind the evaluator does not know, whatever their operands -/
+example (env : Env) : eval env (.forbidden "Invert") = .error .value ∧ eval env (.forbidden "MatMult") = .error .value :=
+  ⟨forbidden_raises env _, forbidden_raises env _⟩
+
+set_option exponentiation.threshold 1100 in
+example : eval [] (.bin .div (.const (.int 1)) (.const (.int 2))) = .error .floatResult ∧
+    eval [] (.bin .div (.const (.int 1)) (.const (.int 0))) = .error .pyError ∧
+    eval [] (.bin .pow (.const (.int 2)) (.const (.int (-1)))) = .error .floatResult ∧
+    eval [] (.bin .pow (.const (.int 0)) (.const (.int (-1)))) = .error .pyError ∧
+    eval [] (.bin .div (.const (.int 1)) (.forbidden "Attribute")) = .error .value := by
+  refine ⟨?_, ?_, ?_, ?_, ?_⟩ <;> (simp only [eval, evalH]; rfl)
 
 /-- the same is false with `**`: a 3-node expression already exceeds any such bound (and `9**9**9` does not terminate
     in practice — known finding K11a) -/
